@@ -18,6 +18,8 @@ def model_behaviours(workdir, cap, nkeys, depth, num=None, seed=0):
     if res.violated or (res.rc != 0 and num is None):
         raise RuntimeError('GVCache model failed:\n' + res.raw[-2000:])
     behs = [[(k, h) for (k, h) in t[1]] for t in res.find('BEH')]
+    if num is not None:
+        behs = behs[:num]   # TLC's simulator overshoots the requested number of traces
     return behs, res
 
 
